@@ -159,7 +159,7 @@ def _task(prefix, budget, deadline):
         if time.time() > deadline: break
     res['leftover'] = list(m.work); m.work = []
     res['stats'] = {k: m.stats[k] - q0.get(k, 0) for k in m.stats}
-    res['called'] = sorted(m.called); res['char_splits'] = m.char_splits; res['probe_splits'] = m.probe_splits
+    res['called'] = sorted(m.called); res['char_splits'] = m.char_splits; res['probe_splits'] = m.probe_splits; res['di_broken'] = m.di_broken
     return res
 
 # ---------------------------------------------------------------------------------------------- master side
@@ -195,7 +195,7 @@ def run_harness(ast_path, mod, cls, kw, seed=0, workers=None, time_cap=120, path
                 for s in r['samples']:
                     if len(agg['samples']) < 12: agg['samples'].append(s)
                 for k, n in r['stats'].items(): agg['stats'][k] = agg['stats'].get(k, 0) + n
-                agg['called'].update(r['called']); agg['char_splits'] = max(agg['char_splits'], r['char_splits']); agg['probe_splits'] = max(agg.get('probe_splits', 0), r.get('probe_splits', 0))
+                agg['called'].update(r['called']); agg['char_splits'] = max(agg['char_splits'], r['char_splits']); agg['probe_splits'] = max(agg.get('probe_splits', 0), r.get('probe_splits', 0)); agg['di_broken'] = max(agg.get('di_broken', 0), r.get('di_broken', 0))
                 queue.extend(r['leftover'])
             if (time.time() >= deadline or agg['paths'] >= path_cap) and queue:
                 agg['complete'] = False; agg['unexplored_prefixes'] = len(queue); queue = []
